@@ -352,6 +352,72 @@ class Pairs(object):
         return "Pairs(level=%r, exposed_level=%r, mode=%r, exposed_mode=%r)" % (self.level, self.exposed_level, self._mode, self._emode)
 
 
+def _shape_class(variant):
+    """four DIFFERENT classes that share `__module__` and `__qualname__` ("Shape", not importable by that name) but not
+    their special methods: the proxy type built for one of them must not be reused for another"""
+    class Base(object):
+        def __init__(self, seed):
+            self.items = [seed % 5, seed % 3, 7]
+            self.log = []
+
+        def describe(self):
+            return (variant, len(self.items))
+
+    if variant == "call":
+        class Shape(Base):
+            def __call__(self, *args, **kwargs):
+                self.log.append("call")
+                return (len(args), tuple(sorted(kwargs)))
+    elif variant == "seq":
+        class Shape(Base):
+            def __len__(self):
+                return len(self.items)
+
+            def __iter__(self):
+                return iter(list(self.items))
+
+            def __getitem__(self, i):
+                return self.items[i]
+
+            def __contains__(self, x):
+                return x in self.items
+    elif variant == "ctx":
+        class Shape(Base):
+            def __enter__(self):
+                self.log.append("enter")
+                return self
+
+            def __exit__(self, t, v, tb):
+                self.log.append("exit:%s" % (t is None,))
+                return False
+    else:
+        class Shape(Base):
+            def __add__(self, o):
+                if type(o) is not int:
+                    return NotImplemented
+                self.log.append("add")
+                return [a + o for a in self.items]
+
+            def __neg__(self):
+                return [-a for a in self.items]
+
+            def __iadd__(self, o):
+                if type(o) is not int:
+                    return NotImplemented
+                self.items = [a + o for a in self.items]
+                return self
+    Shape.__qualname__ = Shape.__name__ = "Shape"
+    Shape.__module__ = __name__
+    return Shape
+
+
+SHAPES = {"shape-call": _shape_class("call"), "shape-seq": _shape_class("seq"), "shape-ctx": _shape_class("ctx"),
+          "shape-ops": _shape_class("ops")}
+# what each of them is used through (drawn more often for that kind)
+SHAPE_OPS = {"shape-call": ["call"], "shape-seq": ["len", "iterate", "getitem", "contains", "iterate-partial", "buffiter"],
+             "shape-ctx": ["with"], "shape-ops": ["op:add", "unary:neg", "iop:iadd", "rop:add"]}
+
+
 def gen_squares(n, fail_at=None):
     for i in range(n):
         if fail_at is not None and i == fail_at:
@@ -359,7 +425,8 @@ def gen_squares(n, fail_at=None):
         yield i * i
 
 
-KINDS = ["list", "dict", "set", "bytearray", "deque", "generator", "bytesio", "vec", "pairs"]
+KINDS = ["list", "dict", "set", "bytearray", "deque", "generator", "bytesio", "vec", "pairs",
+         "shape-call", "shape-seq", "shape-ctx", "shape-ops"]
 
 
 def make_object(kind, seed):
@@ -389,6 +456,8 @@ def make_object(kind, seed):
         return Vec(r.range(-4, 9) for _ in range(1 + r.below(5)))
     if kind == "pairs":
         return Pairs(r.below(1000))
+    if kind in SHAPES:
+        return SHAPES[kind](r.below(1000))
     raise ValueError(kind)
 
 
@@ -416,7 +485,7 @@ def snap(o, depth=0):
         return ("bytearray", bytes(o).hex())
     if t is collections.deque:
         return ("deque", [snap(x, depth + 1) for x in o], o.maxlen)
-    if t is Vec or t is Pairs:
+    if t is Vec or t is Pairs or t in SHAPES.values():
         return (t.__name__, sorted((k, repr(snap(v, depth + 1))) for k, v in vars(o).items()))
     if t is io.BytesIO:
         return ("BytesIO", True) if o.closed else ("BytesIO", False, o.getvalue().hex(), o.tell())
@@ -743,7 +812,7 @@ def build_ops():
         O("setattr", lambda o, n, v: setattr(o, n, v), ("attrname", "value"), None),
         O("delattr", lambda o, n: delattr(o, n), ("attrname",), None),
         O("method", None, ("methodcall",), None),
-        O("call", lambda o, a, b: o(a, x=b), ("value", "any"), [], kinds=["vec"]),
+        O("call", lambda o, a, b: o(a, x=b), ("value", "any"), [], kinds=["vec", "shape-call", "shape-seq", "shape-ctx", "shape-ops"]),
     ]
     return ops
 
@@ -800,6 +869,7 @@ METHODS = {
                 ("readlines", ()), ("writelines", ("bytestuple",))],
     "vec": [("scale", ("smallint",)), ("scale", ("smallint", "kw:offset")), ("scale", ("smallint", "smallint", "value", "kw:z")),
             ("boom", ()), ("boom", ("excname", "value")), ("peer", ()), ("exposed_secret", ()), ("_coerce", ("value",))],
+    "shape-call": [("describe", ())], "shape-seq": [("describe", ())], "shape-ctx": [("describe", ())], "shape-ops": [("describe", ())],
     "pairs": [("read", ()), ("exposed_read", ()), ("bump", ()), ("bump", ("smallint",)), ("exposed_bump", ()),
               ("exposed_bump", ("kw:by",)), ("read", ()), ("exposed_read", ())],
 }
@@ -811,6 +881,8 @@ ATTRS = {"vec": ["xs", "log", "tag", "norm", "first", "_hidden", "missing", "new
          "bytesio": ["closed", "missing", "mode", "name"], "generator": ["gi_running", "missing", "gi_code", "__name__"],
          "list": ["missing", "__doc__", "__len__"], "dict": ["missing", "__doc__"], "set": ["missing"], "bytearray": ["missing"],
          "deque": ["maxlen", "missing"],
+         "shape-call": ["items", "log", "missing"], "shape-seq": ["items", "log", "missing"], "shape-ctx": ["items", "log", "missing"],
+         "shape-ops": ["items", "log", "missing"],
          "pairs": ["level", "exposed_level", "mode", "exposed_mode", "level", "exposed_level", "mode", "exposed_mode", "read",
                    "exposed_read", "log", "missing", "_mode"]}
 CHUNKS = [-1, 0, 1, 2, 3, 10, 100]
@@ -1007,7 +1079,9 @@ def gen_sequence(r, kind, n_ops, ops):
         if supported and c >= 50 and r.chance(1, 2):
             seq.append((r.choice(supported), r.next()))
             continue
-        if kind in ("vec", "pairs") and c >= 92:
+        if kind in SHAPE_OPS and c < 55:
+            i = r.choice([j for j in cands if ops[j].label in SHAPE_OPS[kind]])
+        elif kind in ("vec", "pairs") and c >= 92:
             i = r.choice([j for j in cands if ops[j].label in ("hash", "hash-mutate-hash")])
         elif c < 30:
             i = [j for j in cands if ops[j].label == "method"][0]
